@@ -71,7 +71,7 @@ func (tr *FnTr) dynamicCall(x *ssa.Call, cc *ssa.CallCommon) Val {
 			name := g.Pkg.Pkg.Path() + "." + g.Name()
 			if ct := tr.eng.contractFor(name); ct != nil {
 				sig := cc.Value.Type().Underlying().(*types.Signature)
-				ci := &calleeInfo{name: g.Name(), sig: sig, allocs: true}
+				ci := &calleeInfo{name: g.Name(), sig: sig, allocs: true, pkg: g.Pkg}
 				for i := 0; i < sig.Params().Len(); i++ {
 					ci.params = append(ci.params, sig.Params().At(i).Name())
 				}
@@ -168,6 +168,7 @@ func (tr *FnTr) joinReturns(sub *FnTr, x ssa.Value) Val {
 		rs = append(rs, e.St.Reach)
 		st.Mem = Ite(e.St.Reach, e.St.Mem, st.Mem)
 		st.Alloc = Ite(e.St.Reach, e.St.Alloc, st.Alloc)
+		st.Locks = Ite(e.St.Reach, e.St.Locks, st.Locks)
 		r := flattenResults(e.Results, T)
 		if len(res.L) > 0 {
 			res = tr.iteVal(e.St.Reach, r, res)
@@ -176,6 +177,7 @@ func (tr *FnTr) joinReturns(sub *FnTr, x ssa.Value) Val {
 	st.Reach = tr.vc.Def("reach_ret", Or(rs...))
 	st.Mem = tr.vc.Def("mem_ret", st.Mem)
 	st.Alloc = tr.vc.Def("alloc_ret", st.Alloc)
+	st.Locks = tr.vc.Def("locks_ret", st.Locks)
 	tr.st = st
 	if len(res.L) > 0 {
 		res = tr.defVal("ret", res)
@@ -194,6 +196,7 @@ func flattenResults(rs []Val, T types.Type) Val {
 // ---------- contracted calls ----------
 
 type calleeInfo struct {
+	pkg    *ssa.Package
 	name   string
 	sig    *types.Signature
 	params []string
@@ -201,7 +204,7 @@ type calleeInfo struct {
 }
 
 func infoOf(e *Eng, f *ssa.Function) *calleeInfo {
-	ci := &calleeInfo{name: f.Name(), sig: f.Signature}
+	ci := &calleeInfo{name: f.Name(), sig: f.Signature, pkg: f.Pkg}
 	for _, p := range f.Params {
 		ci.params = append(ci.params, p.Name())
 	}
@@ -233,7 +236,7 @@ func (tr *FnTr) contractCallInfo(x ssa.Value, f *calleeInfo, ct *FuncContract, a
 		tr.vc.Assumed = appendUniq(tr.vc.Assumed, "assumed contract: "+ct.Pkg+"."+name)
 	}
 	// post-state
-	post := State{Reach: tr.st.Reach, Mem: pre.Mem, Alloc: pre.Alloc}
+	post := State{Reach: tr.st.Reach, Mem: pre.Mem, Alloc: pre.Alloc, Locks: pre.Locks}
 	allocs := f.allocs
 	if !ct.Pure {
 		var frame []cellRange
@@ -315,6 +318,23 @@ func (tr *FnTr) havocAll(why string) {
 	na := tr.vc.Fresh("alloc_abs", SInt)
 	tr.vc.Assume(Le(tr.st.Alloc, na))
 	tr.st.Alloc = na
+	tr.assumeDataInv()
+}
+
+// assumeDataInv: the representation invariant of the function under verification is
+// assumed to survive every abstracted call (listed as an assumption in the evidence).
+func (tr *FnTr) assumeDataInv() {
+	tr.assumeGlobals()
+	top := tr.top
+	if top.ct == nil || len(top.ct.DataInv) == 0 || top.fn == nil {
+		return
+	}
+	ctx := top.calleeCtx(top.fn, top.params, nil, tr.st, top.entry)
+	ctx.guard = tr.st.Reach
+	for _, c := range top.ct.DataInv {
+		tr.vc.Assume(Implies(tr.st.Reach, ctx.fact(c.E)))
+	}
+	tr.vc.Assumed = appendUniq(tr.vc.Assumed, "representation invariant (datainv) of "+top.ct.Name+" assumed preserved by abstracted calls")
 }
 
 func (tr *FnTr) havocAllMem(m *Term, tag string) *Term {
@@ -707,4 +727,19 @@ func (tr *FnTr) invoke(x *ssa.Call, cc *ssa.CallCommon) Val {
 		return tr.freshVal(tr.vname(x), x.Type(), nil)
 	}
 	return tr.abstractCall(x, cc, "interface method "+strings.TrimSpace(name))
+}
+
+// assumeGlobals: package-level invariants declared with `global` (e.g. "the curve constants
+// are initialised") are assumed in every state: at entry and after every abstracted call.
+func (tr *FnTr) assumeGlobals() {
+	eng := tr.eng
+	for _, g := range eng.globals_ {
+		sp := eng.pkgs[g.Pkg]
+		if sp == nil {
+			continue
+		}
+		ctx := &SpecCtx{tr: tr, st: tr.st, old: tr.top.entry, pkg: sp}
+		tr.vc.Assume(Implies(tr.st.Reach, ctx.fact(g.C.E)))
+		tr.vc.Assumed = appendUniq(tr.vc.Assumed, "global invariant assumed ("+shortPkg(g.Pkg)+"): "+g.C.Src)
+	}
 }
